@@ -7,6 +7,7 @@ import (
 	"io"
 	"net"
 	"os"
+	"strings"
 	"time"
 
 	"verifharness/wire"
@@ -24,7 +25,16 @@ type Client struct {
 
 // Dial opens a plain TCP connection.
 func Dial(addr string) (*Client, error) {
-	c, err := net.DialTimeout("tcp", addr, 5*time.Second)
+	var c net.Conn
+	var err error
+	for attempt := 0; attempt < 150; attempt++ {
+		c, err = net.DialTimeout("tcp", addr, 5*time.Second)
+		// no free ephemeral port for the client side (TIME_WAIT pile-up in long runs): wait
+		if err == nil || !strings.Contains(err.Error(), "cannot assign requested address") {
+			break
+		}
+		time.Sleep(200 * time.Millisecond)
+	}
 	if err != nil {
 		return nil, err
 	}
